@@ -56,6 +56,18 @@ def burst_bytes(b):
             ends.append((len(out), {"name": "binary", "data": p}))
     else:
         raise ValueError(kind)
+    if b.get("exact"):
+        # pad with one more binary frame so that the burst is EXACTLY a multiple of the 64 KiB
+        # receive buffer (a read that fills the buffer to the last byte with nothing behind it)
+        target = ((len(out) + 20) // 65536 + b["exact"]) * 65536
+        room = target - len(out)
+        for hdr in (2, 4, 10):
+            n = room - hdr
+            if n >= 0 and hdr == {7: 2, 16: 4, 64: 10}[7 if n < 126 else (16 if n < 65536 else 64)]:
+                p = b"x" * n
+                out += B(wire.BINARY, p)
+                ends.append((len(out), {"name": "binary", "data": p}))
+                break
     return bytes(out), ends
 
 
@@ -82,11 +94,12 @@ class C18(Prop):
             "rep": st.sampled_from([1, 1, 10, 60]), "ping_every": st.one_of(st.none(), st.integers(1, 20)),
             # per-frame shapes, cycled: 0 binary, 1 empty binary, 2 empty text, 3 text ended by an
             # empty final fragment, 4 text - whichever comes last is the last thing in its read
-            "shapes": st.lists(st.integers(0, 4), min_size=1, max_size=5)})
+            "shapes": st.lists(st.integers(0, 4), min_size=1, max_size=5),
+            "exact": st.one_of(st.none(), st.none(), st.integers(1, 3))})
         large = st.fixed_dictionaries({
             "kind": st.just("few_large"),
             "sizes": st.lists(st.one_of(st.sampled_from(SIZES), st.integers(1, 70000)), min_size=1, max_size=3),
-            "fragment": st.booleans()})
+            "fragment": st.booleans(), "exact": st.one_of(st.none(), st.none(), st.integers(1, 2))})
         burst = st.one_of(small, large)
         return st.fixed_dictionaries({
             "tls": st.booleans(),
@@ -106,6 +119,13 @@ class C18(Prop):
                             yield {"tls": bool(tls), "eager": tls == "eager", "record": record, "with_reply": False, "chunk": None,
                                    "bursts": [[4, {"kind": "few_large", "sizes": [size, 10], "fragment": fragment}],
                                               [4, {"kind": "many_small", "n": 120, "rep": 10, "ping_every": 7}]]}
+            # bursts that are exactly 1x / 2x / 3x the receive buffer, plain and TLS
+            for tls in (False, True, "eager"):
+                for k in (1, 2, 3):
+                    for n in (1, 40):
+                        yield {"tls": bool(tls), "eager": tls == "eager", "record": 16384, "with_reply": False, "chunk": None,
+                               "bursts": [[4, {"kind": "many_small", "n": n, "rep": 10, "ping_every": 9, "exact": k}],
+                                          [8, {"kind": "many_small", "n": 2, "rep": 1, "ping_every": None}]]}
             # every frame shape as the LAST frame of a read, plain and TLS
             for tls in (False, True):
                 for last in range(5):
